@@ -901,6 +901,7 @@ Proof.
   unfold timer_reset in E. destruct (negb _) in E; [discriminate|]. inversion E. repeat split.
 Qed.
 
+
 (* ---- concrete runs: the hypotheses are satisfiable, and the known defect is real ---- *)
 Definition expo_of_wout (w : wout) : option expo :=
   match decode (w_pspans w) (w_pdeltas w), decode (w_nspans w) (w_ndeltas w) with
@@ -916,41 +917,160 @@ Definition ex_ops : list op :=
    OObs (of_bits 0x4059000000000000); OObs (of_bits 0x3FB999999999999A); OWrite; OFire; OWrite].
 
 (* this run widens the zero bucket (exactly), halves the resolution three times, schedules and fires
-   the reset timer; all four expositions satisfy the SPECIFICATION's accounting_check against the ghost G *)
+   the reset timer; the four expositions (schema, count, created) are as listed and every one of them
+   satisfies the SPECIFICATION's accounting_check against the ghost G *)
 Lemma accounting_example_lemma :
   match run_ghost (new_hist ex_cfg) [] ex_ops with
   | Some (l, true) =>
-      map (fun p => (w_schema (fst p), w_count (fst p), w_created (fst p))) l = [(2, 3, 0); (1, 6, 0); (-1, 8, 0); (2, 0, 2000)] /\
-      forallb (fun p => match expo_of_wout (fst p) with Some x => accounting_check (snd p) x | None => false end) l = true
-  | _ => False
-  end.
-Proof. vm_compute. split; reflexivity. Qed.
+      Some (map (fun p => (w_schema (fst p), w_count (fst p), w_created (fst p))) l,
+            forallb (fun p => match expo_of_wout (fst p) with Some x => accounting_check (snd p) x | None => false end) l)
+  | _ => None
+  end = Some ([(2, 3, 0); (1, 6, 0); (-1, 8, 0); (2, 0, 2000)], true).
+Proof. vm_compute. reflexivity. Qed.
 
 (* known finding subnormal-widen: schema 1, zero threshold 0, one bucket allowed, zero bucket may grow to
    1e-300; observing 5*2^-1074 and 6*2^-1074 widens the zero bucket to getLe(-2143, 1), which ROUNDS up to
-   6*2^-1074: the exposition says zero threshold 6*2^-1074, zero count 1, and the observation 6*2^-1074
-   (which is <= the threshold) sits in regular bucket -2142.  The widening is not exact and the
-   specification's accounting_check rejects the exposition. *)
+   6*2^-1074: the exposition says zero threshold 6*2^-1074 (bits 6), zero count 1, and the observation
+   6*2^-1074 (<= the threshold) sits in regular bucket -2142.  The widening is not exact (the ghost
+   run stops with flag false) and the specification's accounting_check rejects the exposition. *)
 Definition kf_cfg : config := mkConfig 1 (of_bits 0xBFF0000000000000) 1 (of_bits 0x01A56E1FC2F8F359) 0 (-1) 0.
 Definition kf_obs : list f64 := [of_bits 5; of_bits 6].
 Definition kf_ops : list op := [OObs (of_bits 5); OObs (of_bits 6); OWrite].
 
 Lemma widen_subnormal_refuted_lemma :
   valid_config kf_cfg /\
-  run_ghost (new_hist kf_cfg) [] kf_ops = Some ([], false) /\
-  exists w, run kf_cfg kf_ops = Some [w] /\
-    to_bits (w_zt w) = 6 /\ w_zc w = 1 /\ decode (w_pspans w) (w_pdeltas w) = Some [(-2142, 1)] /\
-    match expo_of_wout w with Some x => accounting_check kf_obs x = false | None => False end.
+  match run_ghost (new_hist kf_cfg) [] kf_ops with Some (l, b) => Some (length l, b) | None => None end = Some (0%nat, false) /\
+  option_map (map (fun w => (to_bits (w_zt w), w_zc w, decode (w_pspans w) (w_pdeltas w),
+                             match expo_of_wout w with Some x => Some (accounting_check kf_obs x) | None => None end)))
+             (run kf_cfg kf_ops)
+  = Some [(6, 1, Some [(-2142, 1)], Some false)].
 Proof.
-  split; [unfold valid_config; cbn; lia|]. split; [vm_compute; reflexivity|].
-  destruct (run kf_cfg kf_ops) as [[|w [|]]|] eqn:E; try (vm_compute in E; discriminate).
-  exists w. split; [reflexivity|].
-  assert (Ew : Some [(to_bits (w_zt w), w_zc w, decode (w_pspans w) (w_pdeltas w),
-                      match expo_of_wout w with Some x => Some (accounting_check kf_obs x) | None => None end)]
-             = option_map (map (fun w => (to_bits (w_zt w), w_zc w, decode (w_pspans w) (w_pdeltas w),
-                      match expo_of_wout w with Some x => Some (accounting_check kf_obs x) | None => None end))) (run kf_cfg kf_ops))
-    by (rewrite E; reflexivity).
-  vm_compute in Ew. inversion Ew as [[H1 H2 H3 H4]]. clear Ew.
-  rewrite <- H1, <- H2, <- H3. repeat split; try reflexivity.
-  destruct (expo_of_wout w) as [x|]; [|discriminate]. inversion H4. reflexivity.
+  split; [unfold valid_config; cbn; lia|]. split; vm_compute; reflexivity.
 Qed.
+
+(* ====================================================================== *)
+(* D. native exemplars (for every oracle value and every TTL)              *)
+(* ====================================================================== *)
+Lemma in_firstn {A} (x : A) : forall n l, In x (firstn n l) -> In x l.
+Proof.
+  induction n as [|n IH]; intros l H; [destruct H|]. destruct l as [|a l]; [destruct H|].
+  cbn in H. destruct H as [->|H]; [left; reflexivity|right; apply IH; exact H].
+Qed.
+Lemma in_skipn {A} (x : A) : forall n l, In x (skipn n l) -> In x l.
+Proof.
+  induction n as [|n IH]; intros l H; [exact H|]. destruct l as [|a l]; [destruct H|]. right. apply IH. exact H.
+Qed.
+Lemma in_take {A} (x : A) n l : In x (take n l) -> In x l. Proof. apply in_firstn. Qed.
+Lemma in_drop {A} (x : A) n l : In x (drop n l) -> In x l. Proof. apply in_skipn. Qed.
+
+Lemma zlen_take {A} n (l : list A) : 0 <= n <= zlen l -> zlen (take n l) = n.
+Proof. unfold zlen, take. intros H. rewrite firstn_length. lia. Qed.
+Lemma zlen_drop {A} n (l : list A) : 0 <= n <= zlen l -> zlen (drop n l) = zlen l - n.
+Proof. unfold zlen, drop. intros H. rewrite skipn_length. lia. Qed.
+Lemma zlen_nonneg {A} (l : list A) : 0 <= zlen l. Proof. unfold zlen. lia. Qed.
+Lemma zlen1 {A} (x : A) : zlen [x] = 1. Proof. reflexivity. Qed.
+
+Lemma first_idx_range p : forall l i0, i0 <= first_idx p l i0 <= i0 + zlen l.
+Proof.
+  induction l as [|x r IH]; intros i0; cbn [first_idx]; [unfold zlen; cbn; lia|].
+  replace (zlen (x :: r)) with (zlen r + 1) by (unfold zlen; cbn [length]; lia).
+  pose proof (zlen_nonneg r). destruct (p x); [lia|]. specialize (IH (i0 + 1)). lia.
+Qed.
+
+Lemma oldest_idx_range : forall l i ot otIdx, (otIdx = -1 \/ 0 <= otIdx < i) -> 0 <= i ->
+  let r := snd (oldest_idx l i ot otIdx) in (r = -1 /\ l = [] /\ otIdx = -1) \/ 0 <= r < i + zlen l.
+Proof.
+  induction l as [|x r IH]; intros i ot otIdx H Hi; cbn [oldest_idx snd].
+  - unfold zlen. cbn. destruct H as [->|H]; [left; repeat split|right; lia].
+  - replace (zlen (x :: r)) with (zlen r + 1) by (unfold zlen; cbn [length]; lia).
+    assert (A1 : i = -1 \/ 0 <= i < i + 1) by lia. assert (A2 : 0 <= i + 1) by lia.
+    destruct (Z.eqb_spec otIdx (-1)) as [Em|Em]; cbn [orb].
+    + destruct (IH (i + 1) (snd x) i A1 A2) as [(E & _ & E2)|E]; [lia|right; lia].
+    + assert (H' : otIdx = -1 \/ 0 <= otIdx < i + 1) by (destruct H; [contradiction|right; lia]).
+      destruct (snd x <? ot).
+      * destruct (IH (i + 1) (snd x) i A1 A2) as [(E & _ & E2)|E]; [lia|right; lia].
+      * destruct (IH (i + 1) ot otIdx H' A2) as [(E & _ & E2)|E]; [lia|right; lia].
+Qed.
+
+Lemma zlen_replace_ex l r n e : 0 <= r < zlen l -> 0 <= n <= zlen l -> zlen (replace_ex l r n e) = zlen l.
+Proof.
+  intros Hr Hn. unfold replace_ex. destruct (Z.eqb_spec r n) as [->|Hne].
+  - rewrite !zlen_app, zlen_take, zlen_drop, zlen1 by lia. lia.
+  - destruct (Z.ltb_spec r n).
+    + rewrite !zlen_app, zlen_take by lia. rewrite zlen_drop by (rewrite zlen_take by lia; lia).
+      rewrite zlen_take, zlen_drop, zlen1 by lia. lia.
+    + rewrite !zlen_app, zlen_take by lia. rewrite (zlen_drop n (take r l)) by (rewrite zlen_take by lia; lia).
+      rewrite zlen_take, zlen_drop, zlen1 by lia. lia.
+Qed.
+
+Lemma in_replace_ex l r n e x : In x (replace_ex l r n e) -> x = e \/ In x l.
+Proof.
+  unfold replace_ex. intros H.
+  destruct (r =? n); [|destruct (r <? n)]; repeat (apply in_app_or in H; destruct H as [H|H]);
+    try (destruct H as [<-|[]]; left; reflexivity);
+    right; repeat (first [apply in_take in H | apply in_drop in H]); exact H.
+Qed.
+
+Lemma replace_ex_has l r n e : In e (replace_ex l r n e).
+Proof.
+  unfold replace_ex. destruct (r =? n); [|destruct (r <? n)]; repeat (apply in_or_app; first [left; left; reflexivity|right]);
+    try (left; reflexivity).
+Qed.
+
+Lemma choose_ridx_range l n o : 2 <= zlen l -> 0 <= n <= zlen l -> 0 <= choose_ridx l n o < zlen l.
+Proof.
+  intros Hl Hn. unfold choose_ridx.
+  set (p := if (1 <=? o / 4) && (o / 4 <? zlen l) then o / 4 else 1).
+  assert (Hp : 1 <= p < zlen l) by (unfold p; destruct (Z.leb_spec 1 (o / 4)), (Z.ltb_spec (o / 4) (zlen l)); cbn; lia).
+  clearbody p.
+  assert (Ho : 0 <= older_of_pair l p < zlen l) by (unfold older_of_pair; destruct (snd (nth_ex l p) <? snd (nth_ex l (p - 1))); lia).
+  destruct (Z.ltb_spec n (zlen l)), ((o mod 2) =? 1); cbn [andb]; try lia;
+    destruct (Z.ltb_spec 0 n), ((o / 2) mod 2 =? 1); cbn [andb]; lia.
+Qed.
+
+(* exemplars_bounded: never more than the configured number (10 if the option is 0) *)
+Lemma exemplars_bounded_lemma g l e o : zlen l <= ex_cap g -> zlen (add_exemplar g l e o) <= ex_cap g.
+Proof.
+  intros H. unfold add_exemplar. destruct (ex_disabled g) eqn:Hd; [exact H|].
+  assert (Hcap : 1 <= ex_cap g).
+  { unfold ex_disabled in Hd. unfold ex_cap. destruct (Z.eqb_spec (g_ex_max g) 0); [lia|]. destruct (Z.ltb_spec (g_ex_max g) 0); [discriminate|lia]. }
+  destruct (Z.ltb_spec (zlen l) (ex_cap g)) as [Hlt|Hge].
+  - pose proof (first_idx_range (fun x => flt (fst e) (fst x)) l 0) as R.
+    rewrite !zlen_app, zlen_take, zlen_drop, zlen1 by lia. lia.
+  - destruct (Z.eqb_spec (zlen l) 1) as [E1|E1]; [rewrite zlen1; lia|].
+    pose proof (oldest_idx_range l 0 0 (-1) (or_introl eq_refl) ltac:(lia)) as O. cbv zeta in O.
+    destruct (oldest_idx l 0 0 (-1)) as [ot otIdx]. cbn [snd] in O.
+    pose proof (first_idx_range (fun x => fle (fst e) (fst x)) l 0) as R.
+    pose proof (zlen_nonneg l) as Hl0.
+    destruct (Z.eq_dec (zlen l) 0) as [E0|E0].
+    + lia.
+    + assert (Hl2 : 2 <= zlen l) by lia.
+      rewrite zlen_replace_ex; [lia| |lia].
+      destruct (negb (otIdx =? -1) && (ex_ttl g <? snd e - ot)).
+      * destruct O as [(_ & -> & _)|O]; [unfold zlen in E0; cbn in E0; lia|lia].
+      * apply choose_ridx_range; lia.
+Qed.
+
+(* exemplars_from_observations: whatever is kept was held before or is the new one *)
+Lemma exemplars_from_lemma g l e o x : In x (add_exemplar g l e o) -> x = e \/ In x l.
+Proof.
+  unfold add_exemplar. destruct (ex_disabled g); [right; assumption|].
+  destruct (zlen l <? ex_cap g).
+  - intros H. apply in_app_or in H. destruct H as [H|H]; [right; apply in_take in H; exact H|].
+    apply in_app_or in H. destruct H as [[<-|[]]|H]; [left; reflexivity|right; apply in_drop in H; exact H].
+  - destruct (zlen l =? 1); [intros [<-|[]]; left; reflexivity|].
+    destruct (oldest_idx l 0 0 (-1)) as [ot otIdx]. apply in_replace_ex.
+Qed.
+
+(* exemplars_contain_latest: unless switched off, the newest exemplar is always kept *)
+Lemma exemplars_latest_lemma g l e o : ex_disabled g = false -> In e (add_exemplar g l e o).
+Proof.
+  intros Hd. unfold add_exemplar. rewrite Hd. destruct (zlen l <? ex_cap g).
+  - apply in_or_app. right. left. reflexivity.
+  - destruct (zlen l =? 1); [left; reflexivity|].
+    destruct (oldest_idx l 0 0 (-1)) as [ot otIdx]. apply replace_ex_has.
+Qed.
+
+(* switched off by a negative maximum: nothing is ever held or exposed *)
+Lemma exemplars_disabled_lemma g l e o : g_ex_max g < 0 -> add_exemplar g l e o = l.
+Proof. intros H. unfold add_exemplar, ex_disabled. destruct (Z.ltb_spec (g_ex_max g) 0); [reflexivity|lia]. Qed.
